@@ -1267,7 +1267,98 @@ func genAV1C09Pkt(x *Ctx) {
 	}
 }
 
+// c13.obuwire: obu.OBU.Marshal; c13.encleb: obu.EncodeLEB128 (and its pkg/obu forward)
+func genAV1ObuWire(x *Ctx) {
+	one := func(c *Case, o av1Obu) {
+		av1WriteHdr(&c.I, o.typ, o.ext, o.hasSize, o.reserved1)
+		c.I.Bytes(o.payload)
+		u := obu.OBU{Header: obu.Header{Type: obu.Type(o.typ), HasSizeField: o.hasSize, Reserved1Bit: o.reserved1}, Payload: cloneBytes(o.payload)}
+		if o.ext != nil {
+			u.Header.ExtensionHeader = &obu.ExtensionHeader{TemporalID: o.ext[0], SpatialID: o.ext[1], Reserved3Bits: o.ext[2]}
+		}
+		var out []byte
+		if try(func() { out = u.Marshal() }) {
+			c.O.Tok("panic")
+			return
+		}
+		c.O.Bytes(out)
+		if o.hasSize {
+			c.Tag("with-size")
+		} else {
+			c.Tag("no-size")
+		}
+	}
+	for typ := 0; typ < 16; typ++ {
+		for _, n := range []int{0, 1, 126, 127, 128, 129, 16383, 16384, 16385} {
+			for v := 0; v < 4; v++ {
+				x.Case(func(c *Case) {
+					o := av1Obu{typ: byte(typ), hasSize: v&1 == 0, reserved1: c.R.Chance(1, 4), payload: c.R.Bytes(n)}
+					if v&2 != 0 {
+						o.ext = &[3]byte{byte(c.R.Intn(8)), byte(c.R.Intn(4)), byte(c.R.Intn(8))}
+					}
+					one(c, o)
+				})
+			}
+		}
+	}
+	for i, n := 0, x.N(3000, 200000); i < n; i++ {
+		x.Case(func(c *Case) {
+			os := av1RandObus(c.R, c.R.Range(2, 200), 1, 3000, true)
+			one(c, os[0])
+		})
+	}
+}
+
+func genAV1EncLeb(x *Ctx) {
+	one := func(n uint64) {
+		x.Case(func(c *Case) {
+			c.I.U64(n)
+			var a, b uint
+			if try(func() { a = obu.EncodeLEB128(uint(n)); b = pkgobu.EncodeLEB128(uint(n)) }) {
+				c.O.Tok("panic")
+				return
+			}
+			if a != b {
+				c.O.Tok("forward-mismatch")
+				return
+			}
+			c.O.U64(uint64(a))
+			if n < 1<<56 {
+				c.Tag("n<2^56")
+			} else {
+				c.Tag("n>=2^56")
+			}
+		})
+	}
+	for k := uint(1); k <= 9; k++ {
+		for d := int64(-2); d <= 2; d++ {
+			one(uint64(int64(1)<<(7*k) + d))
+		}
+	}
+	for _, n := range []uint64{0, 1, 2, 126, 1<<32 - 1, 1 << 32, 1<<56 - 1, 1 << 56, 1 << 63, 1<<64 - 1} {
+		one(n)
+	}
+	for n := uint64(0); n < 400; n++ {
+		one(n)
+	}
+	for i, n := 0, x.N(4000, 300000); i < n; i++ {
+		x.Case(func(c *Case) {
+			v := c.R.U64() >> uint(c.R.Range(0, 63))
+			c.I.U64(v)
+			a := obu.EncodeLEB128(uint(v))
+			c.O.U64(uint64(a))
+			if v < 1<<56 {
+				c.Tag("n<2^56")
+			} else {
+				c.Tag("n>=2^56")
+			}
+		})
+	}
+}
+
 func init() {
+	register("c13.obuwire", "C13", genAV1ObuWire)
+	register("c13.encleb", "C13", genAV1EncLeb)
 	register("c13.rt", "C13", genAV1Rt)
 	register("c13.leb", "C13", genAV1Leb)
 	register("c13.lebrd", "C13", genAV1LebRd)
